@@ -180,7 +180,7 @@ Proof. unfold processAKE. lc_tac. Qed.
 (* the peer's disconnect: message state and event in one block *)
 Lemma lc_disconnect_block :
   lc (LET c <- get IN
-      modify (fun c0 => (c0 <| c_lastMsgStateChange := None |> <| c_msgState := c_finished |> <| c_smp := smp_wiped |> <| c_ake := None |> <| c_keys := keyctx_empty |>)) ;;;
+      modify (fun c0 => (c0 <| c_lastMsgStateChange := None |> <| c_msgState := c_finished |> <| c_smp := smp_wiped |> <| c_ake := None |> <| c_keys := keyctx_empty |> <| c_version := 0 |>)) ;;;
       (if c_msgState c =? c_encrypted then event (evSec c_GoneInsecure) else ret tt)).
 Proof.
   intros c ev a c' ev' E. unfold bind, get, modify in E. unfold encb.
@@ -197,7 +197,7 @@ Proof.
   - (* TDisconnected *)
     intros c ev a c' ev' E.
     assert (E' : bind (LET c <- get IN
-      modify (fun c0 => (c0 <| c_lastMsgStateChange := None |> <| c_msgState := c_finished |> <| c_smp := smp_wiped |> <| c_ake := None |> <| c_keys := keyctx_empty |>)) ;;;
+      modify (fun c0 => (c0 <| c_lastMsgStateChange := None |> <| c_msgState := c_finished |> <| c_smp := smp_wiped |> <| c_ake := None |> <| c_keys := keyctx_empty |> <| c_version := 0 |>)) ;;;
       (if c_msgState c =? c_encrypted then event (evSec c_GoneInsecure) else ret tt)) (fun _ => processTLVs rnd r x acc) c ev = (a, c', ev')).
     { rewrite <- E. reflexivity. }
     revert E'. apply lc_bind; [apply lc_disconnect_block | intros _; apply IH].
